@@ -295,7 +295,7 @@ func tbReconnect(c *TBCase, b *natsim.Broker, h *Hist, out *Outcome) {
 		}
 		probe(live[len(live)-1], "after reconnect")
 	}
-	go svc.Shutdown()
+	tbShutdown(svc, nc, h)
 	settle(time.Second)
 	select {
 	case <-done:
@@ -397,7 +397,7 @@ func tbQueryRelease(c *TBCase, b *natsim.Broker, h *Hist, out *Outcome) {
 	if n := stacksContaining("startQueryListener") - leakBase; n > 0 {
 		h.Violate("C15", "leak", "(*queryEvent).startQueryListener", fmt.Sprintf("%d query listener goroutine(s) remain after %d query events expired (real nats.Conn)", n, c.NQE))
 	}
-	go svc.Shutdown()
+	tbShutdown(svc, nc, h)
 	settle(time.Second)
 	peer.Close()
 	settle(time.Second)
@@ -572,10 +572,25 @@ func tbSendReq(c *TBCase, b *natsim.Broker, h *Hist, out *Outcome) {
 	if left := b.Subscriptions(peerID); len(left) != 0 {
 		h.Violate("C19", "subscription-not-released", "broker", fmt.Sprintf("the broker still holds %v for the requester after %d SendRequest calls", left, len(c.Calls)))
 	}
-	go svc.Shutdown()
+	tbShutdown(svc, nc, h)
 	settle(time.Second)
 	peer.Close()
 	settle(time.Second)
+}
+
+// tbShutdown calls Shutdown on its own goroutine (the caller settles and
+// checks that Serve returned) and looks at the connection at the instant
+// Shutdown returns: it must be closed by then.
+func tbShutdown(svc *res.Service, nc *nats.Conn, h *Hist) {
+	go func() {
+		if err := svc.Shutdown(); err != nil {
+			return
+		}
+		h.Evals++
+		if !nc.IsClosed() {
+			h.Violate("C03", "connection-open-after-shutdown", "tierb", fmt.Sprintf("Shutdown returned while the real connection was not closed yet (status %d)", nc.Status()))
+		}
+	}()
 }
 
 func init() { register(TierBScenario{}) }
